@@ -28,6 +28,7 @@ import ast
 import copy as _copy
 import json
 import os
+import types
 
 from .py2lean2 import Rules2, Translator2, _Ctx, Untranslatable, source_ast, match, _pat  # noqa: F401
 
@@ -80,6 +81,9 @@ class T15(Translator2):
         self._pending = []
         self._nohoist = 0
         self._tmp = 0
+        self._fn_stack = []        # the live function objects being translated (innermost last): callee resolution
+        self._end_stack = []       # value of falling off the end / bare return of an inlined helper
+        self.inlined = []          # names of the helper functions that were inlined at a call site
 
     # ------------------------------------------------------------------------------------------ expressions
     def expr(self, node, scope):
@@ -96,6 +100,12 @@ class T15(Translator2):
                 return tmpl.format(**{k: self.pure(v, scope) for k, v in env.items()}), flag
         if isinstance(node, ast.Constant) and isinstance(node.value, str):
             return json.dumps(node.value, ensure_ascii=False), ""
+        if isinstance(node, ast.JoinedStr):
+            return "()", ""         # an f-string is only ever a message: the unit value, as `"..".format(..)`
+        if isinstance(node, ast.Call):
+            g = self._resolve_callee(node, scope)
+            if g is not None:
+                return self._inline(g[0], g[1], node, scope)
         if isinstance(node, ast.UnaryOp) and isinstance(node.op, ast.Not):
             return "(!" + self.pure(self._truthy(node.operand), scope) + ")", ""
         if isinstance(node, ast.BoolOp):
@@ -123,6 +133,118 @@ class T15(Translator2):
             if isinstance(node, ast.Call) and isinstance(node.func, ast.Attribute) and node.func.attr in ("any", "all"):
                 return node
             return ast.Call(func=ast.Name(id="__truth__", ctx=ast.Load()), args=[node], keywords=[])
+        return node
+
+    # ------------------------------------------------------------------------------------------ helper inlining
+    INLINE_MODULES = ("menpo.shape.labelled", "menpo.landmark.labels")
+    MAX_INLINE_DEPTH = 3
+
+    def _resolve_callee(self, node, scope):
+        """(python function, receiver expression or None) for a call of a module-level helper / a method of the same
+        class that no rule knows: such a call is translated by inlining the helper's own source text"""
+        if not self._fn_stack:
+            return None
+        fn = self._fn_stack[-1]
+        g, recv = None, None
+        if isinstance(node.func, ast.Name) and node.func.id not in scope:
+            g = getattr(fn, "__globals__", {}).get(node.func.id)
+        elif isinstance(node.func, ast.Attribute) and isinstance(node.func.value, ast.Name) \
+                and node.func.value.id in ("self", "cls") and "." in getattr(fn, "__qualname__", ""):
+            owner = getattr(fn, "__globals__", {}).get(fn.__qualname__.split(".")[0])
+            g = getattr(owner, node.func.attr, None) if owner is not None else None
+            g = getattr(g, "__func__", g)
+            recv = node.func.value
+        if not isinstance(g, types.FunctionType) or not str(g.__module__).startswith(self.INLINE_MODULES):
+            return None
+        if g in self._fn_stack or len(self._fn_stack) > self.MAX_INLINE_DEPTH:
+            return None
+        return g, recv
+
+    def _inline(self, g, recv, call, scope):
+        """the body of helper `g` as a term at its call site: parameters become `let`s of the (translated) arguments"""
+        node, _src = source_ast(g)
+        node = self._prepare(node)
+        a = node.args
+        if a.vararg or a.kwarg or a.kwonlyargs or a.posonlyargs:
+            raise Untranslatable("helper %s has a signature that cannot be inlined" % node.name)
+        params = [x.arg for x in a.args]
+        given = ([recv] if recv is not None else []) + list(call.args)
+        if any(isinstance(x, ast.Starred) for x in given) or len(given) > len(params):
+            raise Untranslatable("call shape of helper %s" % node.name)
+        bound = dict(zip(params, given))
+        for kw in call.keywords:
+            if kw.arg is None or kw.arg not in params or kw.arg in bound:
+                raise Untranslatable("call shape of helper %s" % node.name)
+            bound[kw.arg] = kw.value
+        dflt = dict(zip(params[len(params) - len(a.defaults):], a.defaults))
+        sc = {"\0caller%d" % i: v for i, v in enumerate(scope.values())}     # reserve the caller's lean names
+        lets = []
+        for p_ in params:
+            src_node = bound.get(p_, dflt.get(p_))
+            if src_node is None:
+                raise Untranslatable("helper %s called without its parameter %s" % (node.name, p_))
+            val = self.pure(src_node, scope)
+            new = self.fresh(p_, sc)
+            sc[p_] = new
+            lets.append("let %s := %s" % (new, val))
+        pure_mode = self.r.ret == "{e}"
+        self._fn_stack.append(g)
+        self._end_stack.append(None if pure_mode else ".ok ()")
+        saved = self._pending
+        self._pending = []
+        try:
+            body = self.block(list(node.body), sc, 1, self.top_ctx())
+        finally:
+            self._pending = saved
+            self._end_stack.pop()
+            self._fn_stack.pop()
+        self.inlined.append(node.name)
+        text = "".join(l + "\n" for l in lets) + body
+        # `inlined` is the identity on `Except Err _`: it only tells Lean the type of the helper's `.ok` / `.error`
+        return ("(" + text + ")", "") if pure_mode else ("(inlined (" + text + "))", "bind")
+
+    def _prepare(self, node):
+        """keyword order normalised, simple aliases (`d = self._labels_to_masks`) replaced by what they stand for"""
+        node = _norm_kw(_copy.deepcopy(node))
+        return self._inline_aliases(node)
+
+    def _inline_aliases(self, node):
+        stores = {}
+        for n in ast.walk(node):
+            if isinstance(n, ast.Name) and isinstance(n.ctx, (ast.Store, ast.Del)):
+                stores[n.id] = stores.get(n.id, 0) + 1
+        params = {x.arg for x in node.args.posonlyargs + node.args.args + node.args.kwonlyargs}
+        try:
+            rebound = set(self.assigned_names(node.body))
+        except Untranslatable:
+            return node
+        alias = {}
+
+        def root(e):
+            while isinstance(e, ast.Attribute):
+                e = e.value
+            return e
+
+        class Drop(ast.NodeTransformer):
+            def visit_Assign(self_, st):
+                if (len(st.targets) == 1 and isinstance(st.targets[0], ast.Name) and isinstance(st.value, ast.Attribute)
+                        and isinstance(root(st.value), ast.Name)):
+                    x, r = st.targets[0].id, root(st.value).id
+                    if stores.get(x, 0) == 1 and x not in params and x not in alias and r not in rebound \
+                            and r not in stores and x != r:
+                        alias[x] = st.value
+                        return None
+                return self_.generic_visit(st)
+
+        class Subst(ast.NodeTransformer):
+            def visit_Name(self_, n):
+                if isinstance(n.ctx, ast.Load) and n.id in alias:
+                    return _copy.deepcopy(alias[n.id])
+                return n
+        node = Drop().visit(node)
+        if alias:
+            node = Subst().visit(node)
+            ast.fix_missing_locations(node)
         return node
 
     def pure(self, node, scope):
@@ -160,11 +282,15 @@ class T15(Translator2):
                 return True
         for n in ast.walk(st):
             if isinstance(n, ast.expr):
+                hit = False
                 for pat, _t, flag in self.r.expr:
                     if match(pat, n, {}):
                         if flag == "bind":
                             return True
+                        hit = True
                         break
+                if not hit and isinstance(n, ast.Call) and self.r.ret != "{e}" and self._resolve_callee(n, {}) is not None:
+                    return True
         return False
 
     def _has(self, stmts, kinds, into_loops):
@@ -250,6 +376,10 @@ class T15(Translator2):
         return Translator2.block(self, stmts, scope, ind, ctx)
 
     def _end_text(self, scope):
+        if self._end_stack:
+            if self._end_stack[-1] is None:
+                raise Untranslatable("a helper without a value is used as a value")
+            return self._end_stack[-1]
         if self.r.end is None:
             raise Untranslatable("control reaches the end of the function without return/raise")
         d = {k: v for k, v in scope.items() if k.isidentifier()}
@@ -262,7 +392,7 @@ class T15(Translator2):
         return _Ctx(exit_=lambda v, s, i: "  " * i + v, end=lambda scope, ind: "  " * ind + self._end_text(scope))
 
     def function_node(self, node, arg_names, ind=2, allow_unused=()):
-        node = _norm_kw(_copy.deepcopy(node))
+        node = self._prepare(node)
         a = node.args
         params = [x.arg for x in a.posonlyargs + a.args + a.kwonlyargs]
         if a.vararg:
@@ -281,7 +411,11 @@ class T15(Translator2):
 
     def function(self, fn, arg_names, ind=2, allow_unused=()):
         node, _src = source_ast(fn)
-        return self.function_node(node, arg_names, ind, allow_unused)
+        self._fn_stack.append(fn)
+        try:
+            return self.function_node(node, arg_names, ind, allow_unused)
+        finally:
+            self._fn_stack.pop()
 
 
 def defaults_of(fn):
